@@ -47,3 +47,11 @@ Print Assumptions C04_borrow_map_keys.
 Theorem C04_borrow_map_entry : forall m r ls es, In (r, (ls, es)) (borrow_map m) -> es = edges_for m r.
 Proof. exact borrow_map_entry. Qed.
 Print Assumptions C04_borrow_map_entry.
+
+(* struct side (JS / Dart `_fieldsForLifetimeX`): through any depth of nested structs the accessor evaluates to exactly the
+   fields whose type carries the lifetime plugged into parameter X *)
+From DV Require Import Lifetimes.Struct Lifetimes.StructProofs.
+Theorem C04_struct_accessor_exact : forall ds f tid l p,
+  sdepth_le ds f tid = true -> (In p (expand ds (S f) tid l) <-> carries ds tid l p).
+Proof. exact expand_exact. Qed.
+Print Assumptions C04_struct_accessor_exact.
